@@ -6,6 +6,8 @@ TB="go/types + go/ssa (x/tools v0.29.0) and the checker's abstract domain; state
 CHECKS={
  "C02":("other","Static decision for all byte strings: no panic/over-read in Decode/unescape/Header.decode (E1); every successful header decode computes each field as the standard prescribes for the version/fragment bits the path admits, needs the full header, every error return is justified by a short input; every successful Decode entails both delimiters, a zero XOR over the whole unescaped payload and len = header + declared body + 1 with Body/VerifyCode that window; header decoder history-independent. Not decided: completeness of unescape (all well-formed frames accepted) and escape-pair content rules.","abstract interpretation over go/ssa + symbolic layout extraction compared with spec/jt808_header.json","§4 C02"),
  "C03":("other","Static decision of three clauses for every decoder entry point (34 body parsers, 5 extension parsers, JTMessage.Decode, Packet.Decode) over all inputs, dialects, versions and receiver histories: (A) every index/slice/conversion is proven in range against len (never cap) by abstract interpretation, (B) follows from A, (C) no receiver field written by a decoder keeps or depends on a value from an earlier parse on any successful path. String() totality and termination are not decided.","abstract interpretation over go/ssa (linear-constraint domain, FM entailment, inlining) + receiver taint dataflow","§4 C03"),
+ "C05":("other","Static decision for every decoded header (any package number and total) and any parser state: the slot index and the concatenation loop are in range (E1), the timestamp record dereferenced after a slot store exists (paired-map lemma checked structurally, then used by E1), a rejected package number leaves no side effect, the message returned as complete carries a freshly concatenated body equal to its raw data and the completion flag; plus the reader role from the constructor's state. Exact delivery over arrival orders/duplicates/interleavings is not decided; aliasing of stored bodies is C09's clause.","abstract interpretation over go/ssa + structural paired-map lemma + CFG purity check of the rejection path","§4 C05"),
+ "C10":("other","Panic freedom of everything a TCP client can drive, for all byte streams and Read results: both servers' per-connection roles are interpreted abstractly from the state their constructors establish (default data handler, stream handlers and file event explored through dynamic dispatch, first loop iterations peeled), callees in other packages / goroutine bodies / targets of unresolved dynamic calls are analysed as entries with arbitrary arguments until the set is closed, together with all decoder entry points; obligations: bounds, nil dereference, explicit panics, process exits, type assertions; plus the shape of both accept loops. Channel-close panics are C13's subject; liveness under load is not decided.","abstract interpretation over go/ssa (constructor-to-role sequences, modular entries, loop peeling) + CFG shape rule for accept loops","§4 C10"),
  "C17":("proof","All obligations discharged for all inputs: Packet.Decode is interpreted abstractly once; for every return state and every data type 0..15 the path admits, each header field, the body window and the remainder equal the table written from JT/T 1078 table 19; error returns are justified by the length/marker conditions; plus E1 bounds and E2 history independence.","abstract interpretation over go/ssa + symbolic layout extraction compared with spec/jt1078.json","§4 C17"),
 }
 NA={}
